@@ -7,7 +7,11 @@ import StraxModel.Generated.ShouldSave
   explicit error (hypotheses: `topoOrdered g` and unique providers `(allTypes g).Nodup`, both decidable, both
   evaluated on every generated graph by the driver op `c11.topo`; they exclude cyclic graphs, where the real
   `_get_plugins` recursion never returns, and graphs in which two plugins claim the same data type).
-  The other theorems are about `Strax.Components.getComponents` (model of `Context.get_components`) and hold for
+  `request_succeeds_and_is_correct` combines both halves into the full-strength statement.
+  The theorems stated with a hypothesis `getComponents env = .ok c` (`computed_iff`, `loaded_iff`, `plugin_runs_iff`,
+  `one_origin`, `origins_unique`, `savers_iff_policy`, `savers_where`, `partial_never_saves`, `target_policy_saved`) are
+  the partial-correctness half; WHEN that hypothesis holds is `getComponents_ok_iff`.  They are about
+  `Strax.Components.getComponents` (model of `Context.get_components`) and hold for
   EVERY graph, stored state, target / save choice, modifier and context option for which the function returns
   normally — no hypothesis on the graph is needed for them: the `seen` guard makes the traversal well defined
   even on cyclic graphs.  Acyclicity (decidable witness `topoOrdered`: the list order is a topological order)
@@ -63,14 +67,14 @@ theorem shouldSaveFor_true_iff (env : Env) (p : Plugin) (d : String) :
 /-! ### what is computed, what is loaded -/
 
 /-- A data type is computed iff it is needed (on a path from the targets down to the nearest stored types)
-and not itself stored. -/
+and not itself stored.  (Partial correctness; when the call succeeds: `getComponents_ok_iff`.) -/
 theorem computed_iff {env : Env} {c : Components} (h : getComponents env = .ok c) (t : String) :
     t ∈ c.plugins ↔ Reach env t ∧ loadable env t = false := by
   obtain ⟨st, _, hp, _, hinv, _, hseen⟩ := getComponents_spec h
   rw [hp, hinv.comp t, hseen t]
 
 /-- Everything else that is needed is loaded, from the first frontend (fastest storage type first, then
-context order) that has it. -/
+context order) that has it.  (Partial correctness; totality: `getComponents_ok_iff`.) -/
 theorem loaded_iff {env : Env} {c : Components} (h : getComponents env = .ok c) (t : String) (i : Nat) :
     (t, i) ∈ c.loaders ↔ Reach env t ∧ loaderFor env t = some i := by
   obtain ⟨st, hl, _, _, hinv, _, hseen⟩ := getComponents_spec h
@@ -89,7 +93,8 @@ theorem plugin_runs_iff {env : Env} {c : Components} (h : getComponents env = .o
   · rintro ⟨o, ho, hp, hc⟩; exact ⟨o, ho, hp, (computed_iff h o).1 hc⟩
   · rintro ⟨o, ho, hp, hc⟩; exact ⟨o, ho, hp, (computed_iff h o).2 hc⟩
 
-/-- Every needed data type has exactly one origin: either a loader or a plugin, never both, never none. -/
+/-- Every needed data type has exactly one origin: either a loader or a plugin, never both, never none.
+(About the returned components; partial correctness, totality: `getComponents_ok_iff`.) -/
 theorem one_origin {env : Env} {c : Components} (h : getComponents env = .ok c) (t : String)
     (hr : Reach env t) :
     (t ∈ c.plugins ∧ t ∉ c.loaders.map (·.1)) ∨ (t ∉ c.plugins ∧ t ∈ c.loaders.map (·.1)) := by
@@ -130,7 +135,8 @@ theorem origins_unique {env : Env} {c : Components} (h : getComponents env = .ok
 
 /-- For a complete (not partial / fuzzy / incomplete-tolerant) request, a data type gets a saver iff it is an
 output of a plugin that runs for a non-temporary computed type, is not itself stored, its policy says so
-(table over SaveWhen × is-target × in-save), and some writable frontend accepts it. -/
+(table over SaveWhen × is-target × in-save), and some writable frontend accepts it.
+(Partial correctness; totality: `getComponents_ok_iff`; both together: `request_succeeds_and_is_correct`.) -/
 theorem savers_iff_policy {env : Env} {c : Components} (h : getComponents env = .ok c)
     (hp : env.partialReq = false) (d : String) :
     d ∈ c.savers.map (·.1) ↔
@@ -154,7 +160,7 @@ theorem savers_where {env : Env} {c : Components} (h : getComponents env = .ok c
   rw [hs]; exact hinv.sav
 
 /-- A partial request (time range, selection, column projection), a fuzzy one or one tolerant of incomplete
-data never saves anything. -/
+data never saves anything.  (Partial correctness; totality: `getComponents_ok_iff`.) -/
 theorem partial_never_saves {env : Env} {c : Components} (h : getComponents env = .ok c)
     (hp : env.partialReq = true) : c.savers = [] := by
   obtain ⟨st, _, _, hs, _, hstep, _⟩ := getComponents_spec h
@@ -336,6 +342,28 @@ theorem errors_iff (env : Env) (htopo : topoOrdered env.g = true) (huniq : (allT
       · exact h1 t ht hl
       · exact h h2
       · exact hn (h3 t hr hl)
+
+/-- **Full-strength corollary** (totality + partial correctness in one statement).  On an acyclic graph with unique
+providers, a request none of whose targets is a single letter, all of whose types are registered and all of whose
+needed, not stored types are `Creatable` SUCCEEDS, and its result computes exactly the needed-and-not-stored types,
+loads exactly the needed-and-stored ones from the fastest frontend that has them, saves nothing when it is partial /
+fuzzy / incomplete-tolerant and otherwise saves exactly what the policy table dictates.  (Every other request ends
+in an explicit error: `errors_iff`.) -/
+theorem request_succeeds_and_is_correct (env : Env) (htopo : topoOrdered env.g = true)
+    (huniq : (allTypes env.g).Nodup) (h1 : ∀ t ∈ env.targets, t.length ≠ 1) (h2 : Registered env)
+    (h3 : ∀ t, Reach env t → loadable env t = false → Creatable env t) :
+    ∃ c, getComponents env = .ok c ∧
+      (∀ t, t ∈ c.plugins ↔ Reach env t ∧ loadable env t = false) ∧
+      (∀ t i, (t, i) ∈ c.loaders ↔ Reach env t ∧ loaderFor env t = some i) ∧
+      (∀ t, Reach env t →
+        (t ∈ c.plugins ∧ t ∉ c.loaders.map (·.1)) ∨ (t ∉ c.plugins ∧ t ∈ c.loaders.map (·.1))) ∧
+      (env.partialReq = true → c.savers = []) ∧
+      (env.partialReq = false → ∀ d, d ∈ c.savers.map (·.1) ↔
+        ∃ u ∈ c.plugins, isTemp u = false ∧ ∃ p, pluginFor env.g u = some p ∧ d ∈ p.provides ∧
+          loadable env d = false ∧ PolicySaves env p d ∧ writableFor env d ≠ []) := by
+  obtain ⟨c, hc⟩ := (getComponents_ok_iff env htopo huniq).2 ⟨h1, h2, h3⟩
+  exact ⟨c, hc, computed_iff hc, loaded_iff hc, one_origin hc, partial_never_saves hc,
+    fun hp => savers_iff_policy hc hp⟩
 
 /-! ### several targets merged by the temporary plugin of `get_iter` (defects D22, D23 and their fixes) -/
 
